@@ -106,7 +106,11 @@ func genScenario(r *Rng, maxMsgs, maxRcpts int) *SmtpScenario {
 		if r.Chance(10) {
 			m.RenderFail = true
 			m.FailEarly = r.Bool()
+			if !m.FailEarly {
+				m.FailVia = []string{"", "seeker", "seeker-eof"}[r.Intn(3)]
+			}
 		}
+		m.ToViaAdd = len(m.To) > 1 && r.Chance(35)
 		if r.Chance(20) {
 			m.Body = string(genBody(r, genLen(r, 6000)))
 		}
